@@ -3,6 +3,7 @@ EDS-PENMAN serialization and deserialization.
 """
 
 import logging
+import re
 from pathlib import Path
 
 import penman
@@ -171,7 +172,8 @@ def to_triples(e, properties=True, lnk=True):
             if lnk and node.lnk:
                 triples.append((nid, ':lnk', '"{}"'.format(str(node.lnk))))
             if node.carg:
-                triples.append((nid, ':carg', '"{}"'.format(node.carg)))
+                triples.append(
+                    (nid, ':carg', '"{}"'.format(_escape(node.carg))))
             if node.type is not None:
                 triples.append((nid, ':type', node.type))
             if properties:
@@ -187,6 +189,14 @@ def to_triples(e, properties=True, lnk=True):
         logger.warning(
             'disconnected graph cannot be completely encoded: %r', e)
     return triples
+
+
+def _escape(s):
+    return s.replace('\\', '\\\\').replace('"', '\\"')
+
+
+def _unescape(s):
+    return re.sub(r'\\(.)', r'\1', s)
 
 
 def from_triples(triples):
@@ -206,7 +216,7 @@ def from_triples(triples):
             nd[src]['lnk'] = Lnk(tgt.strip('"'))
         elif rel == 'carg':
             if (tgt[0], tgt[-1]) == ('"', '"'):
-                tgt = tgt[1:-1]
+                tgt = _unescape(tgt[1:-1])
             nd[src]['carg'] = tgt
         elif rel == 'type':
             nd[src]['type'] = tgt
